@@ -129,9 +129,36 @@ func genSetupVector(rng *rand.Rand, idx int) (plugin string, v6 bool, args []str
 		}
 	case "file":
 		names := []string{"{DIR}/leases4.txt", "{DIR}/leases6.txt", "{DIR}/bad.txt", "{DIR}/empty.txt", "{DIR}/missing.txt", "{DIR}", ""}
+		words := []string{"-30s", "0", "-1ns", "poll", "5m", "-1s", "1h", "-2562047h", "300ms", "abc"}
+		if force >= 0 {
+			// systematic: file name x what follows it (nothing, the refresh switch, the switch and one more word -
+			// an interval, also a negative one, a mode, a comment someone left there -, another word, an empty word)
+			f := force
+			force = -1
+			args = []string{names[f%len(names)]}
+			if v6 && f%len(names) == 0 || !v6 && f%len(names) == 1 {
+				args[0] = names[1-f%len(names)] // the well-formed file of this protocol
+			}
+			switch (f / len(names)) % 6 {
+			case 1:
+				args = append(args, "autorefresh")
+			case 2:
+				args = append(args, "autorefresh", words[[]int{0, 2, 5, 7}[(f/(6*len(names)))%4]])
+			case 3:
+				args = append(args, "norefresh")
+			case 4:
+				args = append(args, "autorefresh", words[rng.Intn(len(words))])
+			case 5:
+				args = append(args, "")
+			}
+			break
+		}
 		args = []string{names[rng.Intn(len(names))]}
 		if rng.Intn(3) == 0 {
 			args = append(args, []string{"autorefresh", "autorefresh", "norefresh", ""}[rng.Intn(4)])
+		}
+		if len(args) == 2 && rng.Intn(3) == 0 {
+			args = append(args, argOf(rng, append(append([]string{}, words...), poolDur...)))
 		}
 		if rng.Intn(8) == 0 {
 			args = nil
